@@ -16,6 +16,18 @@ open Verif.Model.Sse Verif.Model.HttpDecide
 
 variable {P : Type}
 
+/-- Media types are compared case-insensitively: two `Content-Type` values that differ only in
+letter case are the same kind of answer. -/
+theorem c11_ctype_case_insensitive (h1 h2 : List Char) (h : h1.map Char.toLower = h2.map Char.toLower) :
+    ctypeOf (some h1) = ctypeOf (some h2) := by
+  unfold ctypeOf
+  simp only []
+  rw [h]
+
+example : ctypeOf (some "Application/JSON; Charset=UTF-8".toList) = .json ∧ ctypeOf (some "TEXT/Event-Stream".toList) = .sse ∧
+    ctypeOf (some "text/plain".toList) = .other ∧ ctypeOf none = .absent ∧ ctypeOf (some []) = .other := by
+  decide
+
 /-- Options do not matter: whatever `enable_streaming`, `max_retries`, `retry_delay`, `timeout`,
 `max_concurrent_requests` and `user_agent` are set to, every answer — failures and unusual bodies
 included — is turned into the same messages and the same session headers. -/
